@@ -122,8 +122,18 @@ def make(fams, fname, sname, lname):
     return o
 
 
+def ctx_repr():
+    """the context objects a render is GIVEN (the dialect classes' SQL_CONTEXT, the module default) are part of what it must not write:
+    they are shared by every later render"""
+    from pypika_tortoise import context as C
+
+    out = {d: repr(c) for d, c in core.contexts().items()}
+    out["DEFAULT_SQL_CONTEXT"] = repr(getattr(C, "DEFAULT_SQL_CONTEXT", None))
+    return out
+
+
 def sdigest(o):
-    return hashlib.sha1(c01.deep_repr(o).encode("utf-8", "surrogatepass")).hexdigest()[:16]
+    return hashlib.sha1((c01.deep_repr(o) + repr(sorted(ctx_repr().items()))).encode("utf-8", "surrogatepass")).hexdigest()[:16]
 
 
 def render_keys(o):
@@ -189,6 +199,7 @@ def run(tier: str) -> int:
     for key, o in live:
         pre = sdigest(o)
         attr0 = {a: c01.deep_repr(v) for a, v in vars(o).items()} if hasattr(o, "__dict__") else {}
+        attr0.update({"(context object) " + d: r for d, r in ctx_repr().items()})
         renders = []
         shape0, transient = shape(o), []
         PROBE[0] = (lambda o=o, shape0=shape0, transient=transient: transient.append(1) if shape(o) != shape0 else None)
@@ -205,7 +216,8 @@ def run(tier: str) -> int:
                 for r in renders[-len(render_keys.__defaults__ or ()) or -1:]:
                     pass
                 renders[-1]["post"] = post
-                attr1 = {a: c01.deep_repr(v) for a, v in vars(o).items()}
+                attr1 = {a: c01.deep_repr(v) for a, v in vars(o).items()} if hasattr(o, "__dict__") else {}
+                attr1.update({"(context object) " + d: r for d, r in ctx_repr().items()})
                 footprint[key] = sorted(a for a in attr1 if attr0.get(a) != attr1[a])
                 pre_for_next = post
         # a fresh, equal object per context, rendered under that context only: the interleaved sequence above must give the same
